@@ -90,6 +90,11 @@ func (w *World) verifyFunc(con *Contract) (res *FuncResult) {
 		t := in.specBool(r.Expr, env)
 		e.assume("true", t)
 	}
+	for _, gu := range con.Ghosts {
+		if gu.Callee == "@entry" {
+			in.ghostAssign(gu, env, env.eval(gu.Expr), st)
+		}
+	}
 	// smoke: precondition satisfiable
 	e.obls = append(e.obls, &Obligation{Name: e.fname + "#smoke:pre", Kind: "smoke", Step: len(e.steps), Reach: "true", Goal: "true", Smoke: true})
 	in.run(st)
